@@ -465,6 +465,34 @@ impl Pool {
             Instruction::Gate(Gate::new("H", vec![], vec![ph(2, &phs)], vec![]).unwrap()),
             Instruction::Gate(Gate::new("CZ", vec![], vec![ph(1, &phs), Qubit::Fixed(1)], vec![]).unwrap()),
             Instruction::Measurement(Measurement { name: None, qubit: ph(2, &phs), target: None }),
+            // calibrations mentioning the SAME placeholders as the body gates above (API-only shape):
+            // resolve_placeholders rewrites the body only, the calibrations keep their placeholders
+            {
+                let mut c = match parse_one("DEFCAL X 0:\n\tZ 50") {
+                    Instruction::CalibrationDefinition(c) => c,
+                    _ => unreachable!(),
+                };
+                c.identifier.qubits = vec![ph(0, &phs)];
+                c.instructions.push(Instruction::Gate(Gate::new("Y", vec![], vec![ph(0, &phs)], vec![]).unwrap()));
+                Instruction::CalibrationDefinition(c)
+            },
+            {
+                let mut c = match parse_one("DEFCAL H 0:\n\tZ 51") {
+                    Instruction::CalibrationDefinition(c) => c,
+                    _ => unreachable!(),
+                };
+                c.instructions.push(Instruction::Gate(Gate::new("Y", vec![], vec![ph(1, &phs)], vec![]).unwrap()));
+                Instruction::CalibrationDefinition(c)
+            },
+            {
+                let mut c = match parse_one("DEFCAL MEASURE 0 addr:\n\tZ 52") {
+                    Instruction::MeasureCalibrationDefinition(c) => c,
+                    _ => unreachable!(),
+                };
+                c.identifier.qubit = ph(2, &phs);
+                c.instructions.push(Instruction::Gate(Gate::new("Y", vec![], vec![ph(2, &phs)], vec![]).unwrap()));
+                Instruction::MeasureCalibrationDefinition(c)
+            },
         ];
         Pool { defs, body, api }
     }
@@ -501,6 +529,17 @@ pub fn pool_or_exit() -> Pool {
             eprintln!("instruction pool could not be built: {}", msg.unwrap_or_else(|| "panic".into()));
             std::process::exit(3);
         }
+    }
+}
+
+impl Pool {
+    /// A long history (64-300 instructions) over few keys: many redefinitions per key.
+    pub fn long_history(&self, rng: &mut Rng) -> Vec<Instruction> {
+        let n = 64 + rng.below(237);
+        let sub: Vec<&Instruction> = (0..(6 + rng.below(20))).map(|_| rng.pick(&self.defs)).collect();
+        (0..n)
+            .map(|_| if rng.chance(4, 5) { (*rng.pick(&sub)).clone() } else { rng.pick(&self.body).clone() })
+            .collect()
     }
 }
 
